@@ -90,6 +90,7 @@ type Contract struct {
 	Generics   [][2]string // type variable, parameter it is taken from
 	CallArgs   []CallArg
 	CallsNonNil []string // ... with non-nil arguments
+	CallFrame  map[string]string // function parameter -> assumed frame of a call of it at the definition side
 	Uses       []string // axioms assumed at entry
 	Splits     []Clause // case split: every obligation is discharged once per case; the cases must cover the precondition
 }
@@ -488,6 +489,16 @@ func (c *Contract) addClause(kw, text string, line int) error {
 		c.Calls = append(c.Calls, fs[0])
 		if len(fs) > 1 && fs[1] == "nonnil" {
 			c.CallsNonNil = append(c.CallsNonNil, fs[0])
+		}
+		// calls h [nonnil] frame <assigns targets>: what the (arbitrary) function value is ASSUMED not to
+		// exceed when the function under verification calls it (definition side); default: everything
+		for i, f := range fs {
+			if f == "frame" && i+1 < len(fs) {
+				if c.CallFrame == nil {
+					c.CallFrame = map[string]string{}
+				}
+				c.CallFrame[fs[0]] = strings.Join(fs[i+1:], " ")
+			}
 		}
 	case "uses":
 		c.Uses = append(c.Uses, strings.Fields(strings.ReplaceAll(text, ",", " "))...)
